@@ -177,6 +177,13 @@ CLAIMED = {
             'subsumes answers lit_Undef only for a subset, a literal p only if self-subsuming resolution on p is justified, lit_Error otherwise; backwardSubsumptionCheck removes / '
             'strengthens the tested clause with the negated literal. First-UIP learning and minimisation are covered by rules of C01/C05/C10 or not at all.',
             'static analysis: abstract evaluation of the two clause operations over a finite domain of clause shapes compared with their set-theoretic definitions + use-site argument rule', ''),
+    'C11': ('other',
+            'Static, the polarity conventions on the theory / SAT boundary only (that an explanation is inconsistent in the theory is a statement about run-time solver state; the coefficient '
+            'part of LRA explanations is C26): every theory clause passes through THandler, where a conflict explanation becomes the clause of the negated literals, the reason of a '
+            'propagated literal is that literal followed by the negated explanation and is requested for the polarity the literal has, a deduction keeps its polarity and a trail literal is '
+            'asserted with the polarity it has; getConflict, getReason, getDeduction and assertLits are evaluated by the abstract evaluator on symbolic literals for all polarity combinations '
+            'and compared with this convention.',
+            'static analysis: abstract evaluation of the four conversion functions over symbolic literals (all polarity combinations) compared with the boundary convention', ''),
     'C15': ('other',
             'Static: (1) UB-obligation engine - every compiler-inserted sanitizer obligation (signed overflow, narrowing, sign change, float cast) in FastRational.h/.cc is '
             'either deleted by LLVM -O2 range analysis or listed in a table with a written justification and the guards it relies on (guards must still be present); the IR '
@@ -198,7 +205,6 @@ CLAIMED = {
 }
 
 NOT_APPLICABLE = {
-    'C11': 'validity in the theory of clauses built from runtime solver state; the one shape-visible clause (positive Farkas coefficients) is claimed under C26',
     'C30': 'termination needs ranking arguments for CDCL with restarts, Bland pivoting and lookahead; polling a stop flag is not termination',
 }
 
